@@ -26,6 +26,7 @@ package nsqd
 // The single linearisation point of FIN / REQ / TOUCH / timeout: exactly one caller can obtain a
 // given in-flight message, and only its owner; a refused call changes nothing.
 //@ func (c *Channel) popInFlightMessage(clientID int64, id MessageID) (*Message, error)
+//@   keeps r4BExitTests, r4BExitTestChan, r4BExitTestSaw, r4BExitTestHeld
 //@   props C02 C08 C13 C01
 //@   ghostparam gid MessageID
 //@   requires c != nil
